@@ -601,6 +601,35 @@ def unit_t(arg):
     return acc.result()
 
 
+def unit_p(arg):
+    """(p) well-formed payloads of every type - also those the library does not implement - in the clear in front of a
+    correctly authenticated Encrypted payload, alone and in pairs; and the same bodies alone / inside the Encrypted payload"""
+    lo, hi = arg
+    acc = Acc()
+    k = KEYS[C_KEY][1]
+    other = [x for x in KEYS if x != C_KEY][0]
+    bodies = R.wellformed_bodies()
+    singles = [(t, lab, b) for t in sorted(bodies) for lab, b in bodies[t]]
+    inners = [('empty', 0, b''), ('notify', R.NOTIFY, R.gp(0, bytes([0, 0, 0x40, 0x00])))]
+    hdr = (C_SPI_I, C_SPI_R, 37, 0x08, 2)
+    for t, lab, b in singles[lo:hi]:
+        for iname, ifirst, ichain in inners:
+            data = R.prefixed_sk([(t, b)], ifirst, ichain, k, C_IV, aes_enc, hdr)
+            acc.case('p-prefix', 'one', data, [C_KEY, 'none', other], dict(right=C_KEY, prefix='%d:%s' % (t, lab), inner=iname))
+        # the body alone in a clear chain, and as the only payload inside the Encrypted payload
+        acc.case('p-prefix', 'alone-clear', R.header(C_SPI_I, C_SPI_R, t, 34, 0x08, 0, 28 + 4 + len(b)) + R.gp(0, b),
+                 ['none', C_KEY], dict(right=C_KEY, prefix='%d:%s' % (t, lab)))
+        acc.case('p-prefix', 'alone-inside', R.prefixed_sk([], t, R.gp(0, b), k, C_IV, aes_enc, hdr), [C_KEY],
+                 dict(right=C_KEY, prefix='%d:%s' % (t, lab)))
+    if lo == 0:
+        firsts = [(t, bodies[t][0][0], bodies[t][0][1]) for t in sorted(bodies)]
+        for t1, l1, b1 in firsts:
+            for t2, l2, b2 in firsts:
+                data = R.prefixed_sk([(t1, b1), (t2, b2)], 0, b'', k, C_IV, aes_enc, hdr)
+                acc.case('p-prefix', 'two', data, [C_KEY, 'none'], dict(right=C_KEY, prefix='%d+%d' % (t1, t2)))
+    return acc.result()
+
+
 def run_unit(u):
     signal.signal(signal.SIGALRM, _alarm)
     signal.signal(signal.SIGVTALRM, _alarm)
@@ -656,6 +685,9 @@ def units():
         for idx in range(len(list(R.scaling_chains(total)))):
             out.append(('f', (total, idx, 'clear')))
             out.append(('f', (total, idx, 'plain')))
+    np_ = sum(len(v) for v in R.wellformed_bodies().values())
+    for lo in range(0, np_, 60):
+        out.append(('p', (lo, lo + 60)))
     nt = len(list(R.text_shapes()))
     for lo in range(0, nt, 64):
         out.append(('t', (lo, lo + 64, 'clear')))
